@@ -22,6 +22,29 @@ def _false(env):
     return env.not_(env.true())
 
 
+def _strip_abs_cap(a):
+    """square of the acos argument min(|x|, 1): returned as the term min(x*x, 1) (|x|^2 = x^2; capping commutes with squaring)"""
+    import z3
+    def strip_abs(t):
+        if z3.is_app(t) and t.decl().kind() == z3.Z3_OP_ITE:
+            c0, t1, t2 = t.children()
+            if z3.simplify(t1 + t2).eq(z3.RealVal(0)):
+                return t1
+        return None
+    inner = strip_abs(a)
+    if inner is not None:
+        return inner * inner
+    if z3.is_app(a) and a.decl().kind() == z3.Z3_OP_ITE:
+        c0, t1, t2 = a.children()
+        for x, one in ((t1, t2), (t2, t1)):
+            if z3.is_rational_value(one) and one.numerator_as_long() == one.denominator_as_long():
+                inner = strip_abs(x)
+                if inner is not None:
+                    sq = inner * inner
+                    return z3.If(sq <= 1, sq, z3.RealVal(1))
+    return a * a
+
+
 def _tri(env, tag):
     return [env.angle("%s_%s" % (n, tag)) for n in ("phi", "theta", "psi")]
 
@@ -49,13 +72,7 @@ def _cos_half_sq(env, ang_deg):
             return None
         from sx import core
         import z3
-        a = ang_deg.arg
-        # |x|^2 = x^2: the code takes np.abs of the quaternion product; square the inner term
-        if z3.is_app(a) and a.decl().kind() == z3.Z3_OP_ITE:
-            c0, t1, t2 = a.children()
-            if z3.simplify(t1 + t2).eq(z3.RealVal(0)):
-                a = t1
-        return core.SNum(a * a)
+        return core.SNum(_strip_abs_cap(ang_deg.arg))
     return math.cos(math.radians(float(ang_deg)) / 2) ** 2
 
 
